@@ -275,9 +275,13 @@ impl<R: Reader> RangeLists<R> {
                 .checked_mul(u64::from(format.word_size()))
                 .ok_or(Error::UnsupportedOffset)?,
         )?)?;
-        input
-            .read_offset(format)
-            .map(|x| RangeListsOffset(base.0 + x))
+        let offset = input.read_offset(format)?;
+        base.0
+            .into_u64()
+            .checked_add(offset.into_u64())
+            .ok_or(Error::UnsupportedOffset)
+            .and_then(R::Offset::from_u64)
+            .map(RangeListsOffset)
     }
 
     /// Call `Reader::lookup_offset_id` for each section, and return the first match.
